@@ -26,7 +26,7 @@ from .. import bus, core, cover, emmon, gen, ref, sysgen, world
 
 LEVEL = 'exploration'
 JOBS = {'quick': 4, 'thorough': 16}
-REQUIRED_MONITORS = ('cli_vs_library_bytes', 'discovery_vs_truth', 'discovery_hash_seeds', 'real_cli_process')
+REQUIRED_MONITORS = ('cli_vs_library_bytes', 'discovery_vs_truth', 'discovery_hash_seeds', 'real_cli_process', 'cli_hash_seeds')
 REQUIRED_CLASSES = ('mol:explicit-only', 'mol:explicit+auto', 'auto-only', 'exclude', 'exclude:several', 'output:given', 'output:default',
                     'input:other-directory', 'distractor:absent-species-topology', 'distractor:foreign-coordinates',
                     'distractor:unknown-extension', 'distractor:system-file-in-list', 'distractor:previous-output',
@@ -63,7 +63,7 @@ def teardown(ctx):
 
 
 def cases(ctx):
-    n = 24 if ctx.tier == 'quick' else 1200
+    n = 24 if ctx.tier == 'quick' else 2400
     for i in range(n):
         yield {'kind': 'world', 'i': i}
     yield {'kind': 'shipped-discovery'}
@@ -125,6 +125,30 @@ try:
     print(json.dumps({'ok': True, 'result': res}))
 except BaseException as exc:
     print(json.dumps({'ok': False, 'error': type(exc).__name__ + ': ' + str(exc)[:200]}))
+'''
+
+
+CLI_DRIVER = r'''
+import json, os, sys
+sys.path.insert(0, os.environ['VERIF_REPO_PATH'])
+import warnings; warnings.simplefilter('ignore')
+import numpy as np
+spec = json.load(open(sys.argv[1]))
+sys.argv_spec = os.path.abspath(sys.argv[1])
+from gaddlemaps import Alignment
+import gaddlemaps._cli as cli
+Alignment.STEPS_FACTOR = spec['steps']
+os.chdir(spec['cwd'])
+sys.argv = spec['argv']
+sys.stdout = open(os.devnull, 'w')
+real = cli.auto_map
+def auto_map(refrence_coordinates, species, scale=0.5, outfile=None):
+    json.dump([[os.path.abspath(x) for x in s] for s in species], open(sys.argv_spec + '.species', 'w'))
+    return real(refrence_coordinates, species, scale, outfile)
+sys.argv_spec = os.path.abspath(sys.argv_spec) if hasattr(sys, 'argv_spec') else None
+cli.auto_map = auto_map
+np.random.seed(spec['seed'])
+cli.main()
 '''
 
 
@@ -413,6 +437,54 @@ def run_world(ctx, case):
         how = 'scale-not-forwarded' if recorded.get('scale') != scale else 'cli-output-differs-from-library-workflow'
         ctx.violation(how, f'first difference at line {k}: {la[k][:60] if k < len(la) else None!r} vs {lb[k][:60] if k < len(lb) else None!r} '
                       f'({len(la)} vs {len(lb)} lines; scale given {scale}, forwarded {recorded.get("scale")})', witness=wit)
+    # ---- the same command line in fresh interpreters with other hash seeds: same random seed, same bytes
+    if i % 2 == 0 and a == b:
+        specfile = os.path.join(root, 'cli_spec.json')
+        with open(specfile, 'w') as fh:
+            json.dump({'argv': argv, 'cwd': cwd, 'seed': int(seed), 'steps': steps}, fh)
+        env = dict(os.environ, VERIF_REPO_PATH=core.REPO)
+        for h in ([1, 2] if ctx.tier == 'quick' else [1, 2, 3, int(rng.integers(4, 10 ** 6))]):
+            env['PYTHONHASHSEED'] = str(h)
+            os.remove(expected_abs)
+            try:
+                r = subprocess.run([sys.executable, '-W', 'ignore', '-c', CLI_DRIVER, specfile], env=env, capture_output=True,
+                                   text=True, timeout=600)
+            except subprocess.TimeoutExpired:
+                ctx.inconclusive_because('the CLI driver under another hash seed did not finish within 10 minutes')
+                break
+            ctx.monitor('cli_hash_seeds')
+            ctx.count('evaluations')
+            if r.returncode != 0 or not os.path.exists(expected_abs):
+                ctx.violation('cli-fails-under-hash-seed', f'PYTHONHASHSEED={h}: rc={r.returncode}; {r.stderr[-200:]}', witness=wit)
+                break
+            got_h = open(expected_abs, 'rb').read()
+            order_h = json.load(open(specfile + '.species'))
+            discovered = [n for n in auto_found if n not in excluded]
+            if len(discovered) <= 1:
+                # the order in which the species are aligned is fixed by the command line: one output for one random seed
+                ctx.hit('hash-seeds:species-order-fixed-by-command-line')
+                if got_h != a:
+                    ctx.violation('cli-output-depends-on-hash-seed', f'PYTHONHASHSEED={h}: the output file differs from the one written with hash '
+                                  f'seed 0 (same files, scale and random seed; species order fixed by the command line)', witness=wit)
+                    break
+            else:
+                # several discovered species: the statement fixes which files each species gets, not the order in which
+                # discovery lists them (it follows a set of file names), so the run is compared with the library workflow
+                # fed with the species in the order this run used
+                ctx.hit('hash-seeds:several-discovered-species')
+                lib_h = os.path.join(root, f'library_result_h{h}.gro')
+                try:
+                    library_run(w, order_h, scale, lib_h, seed, steps)
+                except Exception as exc:  # noqa
+                    ctx.violation(f'library-workflow-raises:{type(exc).__name__}', str(exc)[:200], witness=wit)
+                    break
+                if sorted(tuple(os.path.realpath(x) for x in t) for t in order_h) != sorted(tuple(os.path.realpath(x) for x in t) for t in got_triples):
+                    ctx.violation('discovery-depends-on-hash-seed', f'PYTHONHASHSEED={h}: the command line tool mapped other species / files', witness=wit)
+                    break
+                if got_h != open(lib_h, 'rb').read():
+                    ctx.violation('cli-output-differs-from-library-workflow', f'PYTHONHASHSEED={h}: output differs from the library workflow run '
+                                  f'with the same species order, scale and random seed', witness=wit)
+                    break
     if len(want_species) >= 2 or (explicit and auto_found):
         ctx.nontrivial((tuple(sorted((n, tuple(w['species'][n]['sizes'])) for n in names)), tuple(explicit), tuple(excluded), scale, out_mode, tuple(dist)))
     if i < 3:
